@@ -34,7 +34,7 @@ def write_baseline(prop):
         ev = json.load(fp)
     out = {}
     for f in ev['coverage']['functions_under_contract']:
-        out[f['function']] = {'sha256': f.get('sha256'), 'discharged': []}
+        out[f['function']] = {'sha256': f.get('sha256'), 'discharged': [], 'abstracted_sha': f.get('abstracted_sha') or {}}
     for o in ev['coverage']['obligation_results']:
         fn, _, label = o['id'].partition(':')
         if fn in out and o['result'] == 'discharged':
@@ -113,7 +113,24 @@ def run_check(prop, tier='quick', seed=0, strict=False, procs=None):
             continue
         functions_under_contract.append({k: r.get(k) for k in (
             'function', 'file', 'line', 'sha256', 'dropped', 'cut', 'paths', 'completed_paths',
-            'exits', 'called', 'inlined', 'abstracted', 'wall_s', 'undecided')})
+            'exits', 'called', 'inlined', 'abstracted', 'abstracted_sha', 'wall_s', 'undecided')})
+        # statements replaced by a ghost model are trusted to mean what the model says: if their text differs from
+        # the text recorded with the baseline, that trust is gone and the affected obligations are not discharged
+        base_abs = baseline.get(r['function'], {}).get('abstracted_sha') or {}
+        for prefix, sha in (r.get('abstracted_sha') or {}).items():
+            obligations += 1
+            oid = '%s:abstraction-justified[%s]' % (r['function'], prefix.split('\n')[0][:50])
+            if prefix in base_abs and base_abs[prefix] != sha:
+                ob_records.append({'id': oid, 'kind': 'abstracted statement unchanged', 'result': 'refuted', 'ms': 0, 'solver': ['sha256']})
+                violations.append(write_replay(prop, oid, {
+                    'function': r['function'], 'file': r.get('file'), 'obligation': oid, 'reproduced': False,
+                    'family': r['family'], 'replayer': r['function'], 'label': oid,
+                    'solver_output': 'the statement starting with %r is replaced by a ghost model in the contract; its text '
+                                     'changed since the baseline (sha %s -> %s), so the model is no longer justified'
+                                     % (prefix, base_abs[prefix], sha)}))
+            else:
+                discharged += 1
+                ob_records.append({'id': oid, 'kind': 'abstracted statement unchanged', 'result': 'discharged', 'ms': 0, 'solver': ['sha256']})
         if r['undecided']:
             undecided_functions.append((r['function'], r['undecided']))
             continue
